@@ -838,7 +838,12 @@ impl Scn2 {
     /// A legacy (event-log) bid whose log is what the old code would have written: fills at or
     /// below the limit price with the refund that goes with them, partial rejects, fees pro-rata.
     fn legacy_bid(&mut self, rng: &mut Rng) -> Value {
-        let id = self.new_id(rng);
+        // early contract versions also accepted ids in other written forms of a uuid
+        let id = match rng.below(100) {
+            0..=64 => self.new_id(rng),
+            65..=84 => self.new_id(rng).replace('-', ""),
+            _ => self.new_id(rng).to_uppercase(),
+        };
         let owner = self.trader(rng, &["buyer1", "buyer2"]);
         let price = self.price(rng);
         let size = self.increment * rng.range(2, 6);
@@ -1020,8 +1025,8 @@ impl Scn2 {
 
     pub fn gen_step(&mut self, rng: &mut Rng, world: &World) -> Value {
         let book = world.book();
-        let asks: Vec<AskOrderV1> = book.v1_asks().cloned().collect();
-        let bids: Vec<BidOrderV3> = book.v3_bids().cloned().collect();
+        let asks: Vec<AskOrderV1> = book.v1_asks_by_key();
+        let bids: Vec<BidOrderV3> = book.v3_bids_by_key();
         let ci = world.contract_info();
 
         while let Some(p) = self.plan.pop_front() {
